@@ -1,6 +1,613 @@
-(* DeltaFacts.v — lemmas and proofs about the C20 model (Delta.v). *)
+(* DeltaFacts.v — lemmas and proofs about the C20 model (Delta.v).
+
+   Main results (restated in Props/C20.v):
+     apply_capture / capture_apply : for every shape, every clean pre-state and every coherent,
+       effective tick [live] of it, applying the captured delta to the pre-state re-creates
+       the tick: same committed value, same delta when captured again, same validity/ticks.
+     replay_record_id : recording any such tick history (with gaps) and replaying the buffer
+       reproduces the same cycles, deltas and values.
+     refuted statements: each side condition of [tick] is necessary (witnesses replayed on the
+       implementation, see docs/notes-delta.md). *)
 Require Import Base DeltaLib Delta.
 From Coq Require Import ZifyBool.
 
-Lemma placeholder_leaf : forall z, capture TS (apply TS (fresh TS) (DVal z)) = DVal z.
-Proof. intros z. reflexivity. Qed.
+(* ------------------------------------------------------------------ lists *)
+Lemma fold_ins_mem l acc k : mem k (fold_left (fun s x => ins x s) l acc) = mem k l || mem k acc.
+Proof.
+  revert acc; induction l as [|x r IH]; intros acc; cbn [fold_left mem]; [reflexivity|].
+  rewrite IH, mem_ins. destruct (k =? x), (mem k r), (mem k acc); reflexivity.
+Qed.
+
+Lemma fold_ins_sorted l acc : sorted acc -> sorted (fold_left (fun s x => ins x s) l acc).
+Proof. revert acc; induction l as [|x r IH]; intros acc H; cbn [fold_left]; [exact H|]. apply IH, sorted_ins, H. Qed.
+
+Lemma fold_ins_id l : sorted l -> fold_left (fun s x => ins x s) l [] = l.
+Proof.
+  intros H. apply sorted_ext; [apply fold_ins_sorted; exact I|exact H|].
+  intros k. rewrite fold_ins_mem. cbn [mem]. apply orb_false_r.
+Qed.
+
+Lemma fold_del_sorted l acc : sorted acc -> sorted (fold_left (fun s x => del x s) l acc).
+Proof. revert acc; induction l as [|x r IH]; intros acc H; cbn [fold_left]; [exact H|]. apply IH, sorted_del, H. Qed.
+
+Lemma fold_del_mem l acc k : sorted acc -> mem k (fold_left (fun s x => del x s) l acc) = negb (mem k l) && mem k acc.
+Proof.
+  revert acc; induction l as [|x r IH]; intros acc H; cbn [fold_left mem]; [reflexivity|].
+  rewrite IH by (apply sorted_del; exact H). rewrite mem_del by exact H.
+  destruct (k =? x), (mem k r), (mem k acc); reflexivity.
+Qed.
+
+Lemma sorted_nodup_head x r : sorted (x :: r) -> mem x r = false.
+Proof. intros H. destruct (sorted_cons_inv _ _ H) as [_ Hlb]. apply mem_lb_false with (x := x); [exact Hlb|lia]. Qed.
+
+Lemma sorted_tail x r : sorted (x :: r) -> sorted r.
+Proof. intros H; apply (sorted_cons_inv _ _ H). Qed.
+
+(* ------------------------------------------------------------------ association lists *)
+Section Assoc.
+  Context {A : Type}.
+  Implicit Types l : list (Z * A).
+
+  Lemma ksorted_nil : ksorted (@nil (Z * A)).
+  Proof. exact I. Qed.
+
+  Lemma ksorted_cons_tail x v l : ksorted ((x, v) :: l) -> ksorted l.
+  Proof. intros H; apply (ksorted_tail _ _ _ H). Qed.
+
+  Lemma get_head_none x v l : ksorted ((x, v) :: l) -> get x l = None.
+  Proof. intros H. destruct (ksorted_tail _ _ _ H) as [_ Hlb]. apply get_none_lb with (x := x); [exact Hlb|lia]. Qed.
+
+  (* filter then map on the payload keeps an association list sorted, and [get] sees through *)
+  Definition fm {B} (p : Z * A -> bool) (g : Z * A -> B) l : list (Z * B) :=
+    map (fun kv => (fst kv, g kv)) (filter p l).
+
+  Lemma mem_keys_filter p l y : mem y (keys (filter p l)) = true -> mem y (keys l) = true.
+  Proof.
+    induction l as [|[k v] r IH]; cbn [filter keys map fst mem]; [auto|].
+    destruct (p (k, v)); cbn [keys map fst mem]; intros H.
+    - apply orb_true_iff in H. apply orb_true_iff. destruct H as [H|H]; [left; exact H|right; apply IH, H].
+    - apply orb_true_iff. right. apply IH, H.
+  Qed.
+
+  Lemma lb_filter_keys x p l : lb x (keys l) -> lb x (keys (filter p l)).
+  Proof. intros H y Hy. apply H. apply mem_keys_filter with (p := p). exact Hy. Qed.
+
+  Lemma ksorted_filter p l : ksorted l -> ksorted (filter p l).
+  Proof.
+    induction l as [|[k v] r IH]; intros H; cbn [filter]; [exact I|].
+    destruct (ksorted_tail _ _ _ H) as [Hr Hlb].
+    destruct (p (k, v)); [|apply IH; exact Hr].
+    unfold ksorted; cbn [keys map fst]. apply sorted_cons; [apply IH; exact Hr|].
+    apply lb_filter_keys; exact Hlb.
+  Qed.
+
+  Lemma keys_fm {B} p (g : Z * A -> B) l : keys (fm p g l) = keys (filter p l).
+  Proof. unfold fm, keys. rewrite map_map. reflexivity. Qed.
+
+  Lemma ksorted_fm {B} p (g : Z * A -> B) l : ksorted l -> ksorted (fm p g l).
+  Proof. intros H. unfold ksorted. rewrite keys_fm. apply ksorted_filter; exact H. Qed.
+
+  Lemma get_fm {B} p (g : Z * A -> B) l k : ksorted l ->
+    get k (fm p g l) = match get k l with Some v => if p (k, v) then Some (g (k, v)) else None | None => None end.
+  Proof.
+    induction l as [|[x v] r IH]; intros H; [reflexivity|].
+    destruct (ksorted_tail _ _ _ H) as [Hr Hlb].
+    unfold fm in *. cbn [filter get].
+    destruct (k =? x) eqn:E.
+    - apply Z.eqb_eq in E; subst x.
+      destruct (p (k, v)) eqn:Ep; cbn [map get fst]; [rewrite Z.eqb_refl; reflexivity|].
+      rewrite IH by exact Hr. rewrite (get_none_lb k r k Hlb) by lia. reflexivity.
+    - destruct (p (x, v)); cbn [map get fst]; [rewrite E|]; apply IH; exact Hr.
+  Qed.
+
+  Lemma Forall_get (P : Z * A -> Prop) l k v : Forall P l -> get k l = Some v -> P (k, v).
+  Proof. intros HF Hg. apply get_In in Hg. rewrite Forall_forall in HF. apply HF, Hg. Qed.
+
+  Lemma has_get_some k l : has k l = true -> exists v, get k l = Some v.
+  Proof. unfold has. destruct (get k l) as [v|]; [eauto|discriminate]. Qed.
+
+  Lemma In_keys_get k l : ksorted l -> In k (keys l) -> exists v, get k l = Some v.
+  Proof.
+    intros Hs Hin. apply mem_In in Hin. rewrite <- has_mem in Hin. apply has_get_some, Hin.
+  Qed.
+End Assoc.
+
+(* two filtered/mapped views of two sorted association lists are equal when they agree pointwise *)
+Lemma fm_ext {A A' B} (p : Z * A -> bool) (g : Z * A -> B) (p' : Z * A' -> bool) (g' : Z * A' -> B) l l' :
+  ksorted l -> ksorted l' ->
+  (forall k, match get k l with Some v => if p (k, v) then Some (g (k, v)) else None | None => None end =
+             match get k l' with Some v => if p' (k, v) then Some (g' (k, v)) else None | None => None end) ->
+  fm p g l = fm p' g' l'.
+Proof.
+  intros H H' He. apply ksorted_ext; [apply ksorted_fm, H|apply ksorted_fm, H'|].
+  intros k. rewrite !get_fm by assumption. apply He.
+Qed.
+
+(* ------------------------------------------------------------------ induction on shapes *)
+Lemma shape_ind' (P : shape -> Prop) :
+  P TS -> P SIGNAL -> (forall p m, P (TSW p m)) -> P TSS ->
+  (forall e, P e -> P (TSD e)) -> (forall n e, P e -> P (TSL n e)) ->
+  (forall fs, Forall P fs -> P (TSB fs)) -> forall sh, P sh.
+Proof.
+  intros Hts Hsig Hw Hss Hd Hl Hb.
+  fix IH 1. intros [| |p m| |e|n e|fs].
+  - exact Hts.
+  - exact Hsig.
+  - apply Hw.
+  - exact Hss.
+  - apply Hd, IH.
+  - apply Hl, IH.
+  - apply Hb. induction fs as [|f r IHr]; constructor; [apply IH|exact IHr].
+Qed.
+
+(* ------------------------------------------------------------------ clean states and ticks *)
+Definition clean_flags : sflags := mkF true false false false true.
+
+(* [good sh n]: a committed state (between cycles) all of whose dictionary keys carry a valid,
+   published child — what every replayable history maintains *)
+Fixpoint good (sh : shape) (n : node) : Prop :=
+  match sh, n with
+  | TS, NLeaf m _ | SIGNAL, NLeaf m _ => m = false
+  | TSW p _, NWin m _ => m = false /\ (1 <= p)%nat
+  | TSS, NSet m _ el ad rm => m = false /\ sorted el /\ ad = [] /\ rm = []
+  | TSD e, NDict m _ items =>
+      m = false /\ ksorted items /\
+      Forall (fun kv => fst (snd kv) = clean_flags /\ nvalid (snd (snd kv)) = true /\ good e (snd (snd kv))) items
+  | TSL n e, NIdx m _ kids => m = false /\ length kids = n /\ Forall (good e) kids
+  | TSB fs, NIdx m _ kids =>
+      m = false /\
+      (fix go (fs : list shape) (kids : list node) : Prop :=
+         match fs, kids with
+         | f :: fs', c :: kids' => good f c /\ go fs' kids'
+         | [], [] => True
+         | _, _ => False
+         end) fs kids
+  | _, _ => False
+  end.
+
+(* one slot of a ticking dictionary against the pre-tick dictionary *)
+Definition slot_tick (tk : node -> node -> Prop) (fr : node) (o0 : option (sflags * node)) (f : sflags) (c : node) : Prop :=
+  match o0 with
+  | Some (_, c0) =>
+      if f_live f then
+        f_removed f = false /\ f_published f = true /\ (if f_modified f then tk c0 c else c = c0)
+      else f_removed f = true
+  | None =>
+      if f_live f then f_removed f = false /\ f_modified f = true /\ f_published f = true /\ tk fr c
+      else f_removed f = false
+  end.
+
+(* [tick sh pre live]: [live] is [pre] after one cycle of mutations, its delta surface
+   (added/removed elements, removed keys, modified slots, modified flags) tells the truth about
+   the change, and every ticking collection node either changed or became valid (no ineffective
+   empty tick), and no bundle leaves a never-ticked set/dict field unset beside a ticking one *)
+Fixpoint tick (sh : shape) (pre live : node) : Prop :=
+  match sh, pre, live with
+  | TS, NLeaf _ _, NLeaf m v => m = true /\ exists z, v = Some z
+  | SIGNAL, NLeaf _ _, NLeaf m v => m = true /\ v = Some 1
+  | TSW p _, NWin _ v0, NWin m v1 => m = true /\ exists z, v1 = lastn p (v0 ++ [z])
+  | TSS, NSet _ v0 el0 _ _, NSet m v el ad rm =>
+      m = true /\ v = true /\ sorted ad /\ sorted rm /\
+      (forall k, mem k ad = true -> mem k el0 = false) /\
+      (forall k, mem k rm = true -> mem k el0 = true) /\
+      el = fold_left (fun s k => ins k s) ad (fold_left (fun s k => del k s) rm el0) /\
+      (ad <> [] \/ rm <> [] \/ v0 = false)
+  | TSD e, NDict _ v0 items0, NDict m v items =>
+      m = true /\ v = true /\ ksorted items /\
+      Forall (fun kv => slot_tick (tick e) (fresh e) (get (fst kv) items0) (fst (snd kv)) (snd (snd kv))) items /\
+      Forall (fun kv => has (fst kv) items = true) items0 /\
+      (Exists (fun kv => f_removed (fst (snd kv)) = true \/ (f_live (fst (snd kv)) = true /\ f_modified (fst (snd kv)) = true)) items
+       \/ v0 = false)
+  | TSL n e, NIdx _ _ kids0, NIdx m v kids =>
+      m = true /\ v = true /\
+      Forall2 (fun c0 c => (nmod c = true /\ tick e c0 c) \/ c = c0) kids0 kids /\
+      Exists (fun c => nmod c = true) kids
+  | TSB fs, NIdx _ _ kids0, NIdx m v kids =>
+      m = true /\ v = true /\
+      (fix go (fs : list shape) (kids0 kids : list node) : Prop :=
+         match fs, kids0, kids with
+         | f :: fs', c0 :: k0', c :: k' =>
+             ((nmod c = true /\ tick f c0 c) \/ (c = c0 /\ has_effect f c0 (field_default f) = false)) /\ go fs' k0' k'
+         | [], [], [] => True
+         | _, _, _ => False
+         end) fs kids0 kids /\
+      Exists (fun c => nmod c = true) kids
+  | _, _, _ => False
+  end.
+
+(* what "re-creates the tick" means *)
+Definition recreates (sh : shape) (pre live : node) : Prop :=
+  let out := apply sh pre (capture sh live) in
+  nmod out = true /\ nvalid out = true /\ nmod live = true /\ nvalid live = true /\
+  commit sh out = commit sh live /\
+  capture sh out = capture sh live /\
+  good sh (commit sh live).
+
+(* ------------------------------------------------------------------ leaves, windows *)
+Lemma recreates_ts pre live : good TS pre -> tick TS pre live -> recreates TS pre live.
+Proof.
+  destruct pre as [m0 v0| | | |]; try contradiction. destruct live as [m v| | | |]; try contradiction.
+  intros _ [-> [z ->]]. unfold recreates. cbn. repeat split; reflexivity.
+Qed.
+
+Lemma recreates_signal pre live : good SIGNAL pre -> tick SIGNAL pre live -> recreates SIGNAL pre live.
+Proof.
+  destruct pre as [m0 v0| | | |]; try contradiction. destruct live as [m v| | | |]; try contradiction.
+  intros _ [-> ->]. unfold recreates. cbn. repeat split; reflexivity.
+Qed.
+
+Lemma lastn_length k l : (length (lastn k l) <= length l)%nat.
+Proof.
+  induction l as [|x r IH]; cbn [lastn length]; [destruct (0 <=? k)%nat; cbn; lia|].
+  destruct (S (length r) <=? k)%nat; cbn [length]; lia.
+Qed.
+
+Lemma last_opt_app l z : last_opt (l ++ [z]) = Some z.
+Proof.
+  induction l as [|x r IH]; [reflexivity|]. cbn [app last_opt].
+  destruct (r ++ [z]) eqn:E; [destruct r; discriminate|]. exact IH.
+Qed.
+
+Lemma lastn_app_last k l z : (1 <= k)%nat -> exists l', lastn k (l ++ [z]) = l' ++ [z].
+Proof.
+  intros Hk. induction l as [|x r IH].
+  - exists []. cbn. destruct k; [lia|reflexivity].
+  - cbn [app lastn]. destruct (length (x :: r ++ [z]) <=? k)%nat.
+    + exists (x :: r). reflexivity.
+    + exact IH.
+Qed.
+
+Lemma recreates_tsw p mn pre live : good (TSW p mn) pre -> tick (TSW p mn) pre live -> recreates (TSW p mn) pre live.
+Proof.
+  destruct pre as [|m0 v0| | |]; try contradiction. destruct live as [|m v| | |]; try contradiction.
+  intros [-> Hp] [-> [z ->]]. unfold recreates.
+  destruct (lastn_app_last p v0 z Hp) as [l' Hl].
+  assert (Hlast : last_opt (lastn p (v0 ++ [z])) = Some z) by (rewrite Hl; apply last_opt_app).
+  assert (Hne : lastn p (v0 ++ [z]) <> []) by (rewrite Hl; destruct l'; discriminate).
+  cbn [capture]. rewrite Hlast. cbn [apply has_effect win_push nmod nvalid commit capture].
+  rewrite Hlast. destruct (lastn p (v0 ++ [z])) eqn:E; [congruence|].
+  repeat split; try reflexivity. exact Hp.
+Qed.
+
+(* ------------------------------------------------------------------ sets *)
+Lemma fold_set_remove rm : forall m v el ad rmacc,
+  sorted el -> sorted rmacc ->
+  (forall k, mem k rm = true -> mem k el = true) -> NoDup rm -> ad = [] ->
+  rm <> [] ->
+  fold_left (fun s k => set_remove k s) rm (NSet m v el ad rmacc) =
+  NSet true true (fold_left (fun s k => del k s) rm el) [] (fold_left (fun s k => ins k s) rm rmacc).
+Proof.
+  induction rm as [|x r IH]; intros m v el ad rmacc Hel Hacc Hin Hnd -> Hne; [congruence|].
+  cbn [fold_left]. unfold set_remove at 2.
+  rewrite (Hin x) by (cbn [mem]; rewrite Z.eqb_refl; reflexivity). cbn [mem].
+  inversion Hnd as [|? ? Hnotin Hnd']; subst.
+  destruct r as [|y r'].
+  - reflexivity.
+  - apply IH; try assumption; try reflexivity; try discriminate.
+    + apply sorted_del, Hel.
+    + apply sorted_ins, Hacc.
+    + intros k Hk. rewrite mem_del by exact Hel. rewrite (Hin k) by (cbn [mem] in *; rewrite Hk; apply orb_true_r).
+      rewrite andb_true_r. apply negb_true_iff. apply Z.eqb_neq. intros ->.
+      apply Hnotin. apply mem_In, Hk.
+Qed.
+
+Lemma sorted_NoDup l : sorted l -> NoDup l.
+Proof.
+  induction l as [|x r IH]; intros H; constructor.
+  - intros Hin. apply mem_In in Hin. rewrite sorted_nodup_head in Hin by exact H. discriminate.
+  - apply IH, (sorted_tail _ _ H).
+Qed.
+
+Lemma fold_set_add ad : forall m v el adacc rm,
+  sorted el -> sorted adacc ->
+  (forall k, mem k ad = true -> mem k el = false) -> (forall k, mem k ad = true -> mem k rm = false) -> NoDup ad ->
+  ad <> [] ->
+  fold_left (fun s k => set_add k s) ad (NSet m v el adacc rm) =
+  NSet true true (fold_left (fun s k => ins k s) ad el) (fold_left (fun s k => ins k s) ad adacc) rm.
+Proof.
+  induction ad as [|x r IH]; intros m v el adacc rm Hel Hacc Hout Hrm Hnd Hne; [congruence|].
+  cbn [fold_left]. unfold set_add at 2.
+  rewrite (Hout x), (Hrm x) by (cbn [mem]; rewrite Z.eqb_refl; reflexivity).
+  inversion Hnd as [|? ? Hnotin Hnd']; subst.
+  destruct r as [|y r'].
+  - reflexivity.
+  - apply IH; try assumption; try discriminate.
+    + apply sorted_ins, Hel.
+    + apply sorted_ins, Hacc.
+    + intros k Hk. rewrite mem_ins. rewrite (Hout k) by (cbn [mem] in *; rewrite Hk; apply orb_true_r).
+      rewrite orb_false_r. apply Z.eqb_neq. intros ->. apply Hnotin. apply mem_In, Hk.
+    + intros k Hk. apply Hrm. cbn [mem] in *. rewrite Hk. apply orb_true_r.
+Qed.
+
+Lemma recreates_tss pre live : good TSS pre -> tick TSS pre live -> recreates TSS pre live.
+Proof.
+  destruct pre as [| |m0 v0 el0 ad0 rm0| |]; try contradiction.
+  destruct live as [| |m v el ad rm| |]; try contradiction.
+  intros (-> & Hel0 & -> & ->) (-> & -> & Had & Hrm & Hadout & Hrmin & -> & Heff).
+  unfold recreates. cbn [capture].
+  assert (Heffb : has_effect TSS (NSet false v0 el0 [] []) (DSet ad rm) = true).
+  { cbn [has_effect nvalid]. destruct Heff as [H|[H|H]].
+    - destruct ad; [congruence|reflexivity].
+    - destruct rm; [congruence|]. destruct ad; reflexivity.
+    - subst v0. destruct ad, rm; reflexivity. }
+  cbn [apply]. rewrite Heffb.
+  (* the removals *)
+  assert (Hrem : exists m1 v1, fold_left (fun s k => set_remove k s) rm (NSet false v0 el0 [] []) =
+                 NSet m1 v1 (fold_left (fun s k => del k s) rm el0) [] rm).
+  { destruct rm as [|x r] eqn:Er; [cbn; eauto|]. rewrite <- Er in *.
+    exists true, true.
+    assert (Hne : rm <> []) by (subst rm; discriminate).
+    rewrite (fold_set_remove rm false v0 el0 [] [] Hel0 I Hrmin (sorted_NoDup _ Hrm) eq_refl Hne).
+    rewrite fold_ins_id by exact Hrm. reflexivity. }
+  destruct Hrem as (m1 & v1 & ->).
+  assert (Hadd : exists m2 v2, fold_left (fun s k => set_add k s) ad
+                   (NSet m1 v1 (fold_left (fun s k => del k s) rm el0) [] rm) =
+                 NSet m2 v2 (fold_left (fun s k => ins k s) ad (fold_left (fun s k => del k s) rm el0)) ad rm).
+  { destruct ad as [|x r] eqn:Ea; [cbn; eauto|]. rewrite <- Ea in *.
+    exists true, true.
+    assert (Hne : ad <> []) by (subst ad; discriminate).
+    assert (H1 : forall k, mem k ad = true -> mem k (fold_left (fun s k0 => del k0 s) rm el0) = false).
+    { intros k Hk. rewrite fold_del_mem by exact Hel0. rewrite (Hadout k Hk). apply andb_false_r. }
+    assert (H2 : forall k, mem k ad = true -> mem k rm = false).
+    { intros k Hk. destruct (mem k rm) eqn:E; [|reflexivity].
+      pose proof (Hrmin k E) as Hx. rewrite (Hadout k Hk) in Hx. discriminate. }
+    rewrite (fold_set_add ad m1 v1 _ [] rm (fold_del_sorted _ _ Hel0) I H1 H2 (sorted_NoDup _ Had) Hne).
+    rewrite fold_ins_id by exact Had. reflexivity. }
+  destruct Hadd as (m2 & v2 & ->).
+  cbn [set_touch nmod nvalid commit capture good].
+  repeat split; try reflexivity.
+  apply fold_ins_sorted, fold_del_sorted, Hel0.
+Qed.
+
+(* ------------------------------------------------------------------ general facts *)
+Fixpoint wf_shape (sh : shape) : Prop :=
+  match sh with
+  | TSW p _ => (1 <= p)%nat
+  | TSD e => wf_shape e
+  | TSL _ e => wf_shape e
+  | TSB fs => (fix go (fs : list shape) : Prop := match fs with [] => True | f :: r => wf_shape f /\ go r end) fs
+  | _ => True
+  end.
+
+Lemma wf_tsb_forall fs : wf_shape (TSB fs) -> Forall wf_shape fs.
+Proof. induction fs as [|f r IH]; cbn; intros H; constructor; [apply H|apply IH, H]. Qed.
+
+Lemma good_nmod sh n : good sh n -> nmod n = false.
+Proof.
+  destruct sh, n; cbn; try contradiction; try tauto; intros H; try exact H; try (destruct H as [H _]; exact H).
+Qed.
+
+Definition good_tsb := (fix go (fs : list shape) (kids : list node) : Prop :=
+         match fs, kids with
+         | f :: fs', c :: kids' => good f c /\ go fs' kids'
+         | [], [] => True
+         | _, _ => False
+         end).
+
+Lemma good_tsb_unfold fs m v kids : good (TSB fs) (NIdx m v kids) = (m = false /\ good_tsb fs kids).
+Proof. reflexivity. Qed.
+
+Lemma nvalid_commit sh n : nvalid (commit sh n) = nvalid n.
+Proof. destruct sh, n; reflexivity. Qed.
+
+Lemma good_fresh : forall sh, wf_shape sh -> good sh (fresh sh).
+Proof.
+  induction sh as [| |p m| |e IH|n e IH|fs IH] using shape_ind'; intros Hwf; cbn [good fresh].
+  - reflexivity.
+  - reflexivity.
+  - split; [reflexivity|exact Hwf].
+  - repeat split; exact I.
+  - repeat split; try exact I; constructor.
+  - repeat split; [apply repeat_length|]. apply Forall_forall. intros x Hx. apply repeat_spec in Hx. subst x. apply IH, Hwf.
+  - split; [reflexivity|]. apply wf_tsb_forall in Hwf.
+    induction fs as [|f r IHr]; cbn; [exact I|].
+    inversion IH as [|? ? Hf Hr]; subst. inversion Hwf as [|? ? Wf Wr]; subst.
+    split; [apply Hf, Wf|apply IHr; assumption].
+Qed.
+
+Lemma commit_good : forall sh n, good sh n -> commit sh n = n.
+Proof.
+  induction sh as [| |p m| |e IH|n e IH|fs IH] using shape_ind'; intros nd Hg; destruct nd; cbn [good] in Hg; try contradiction; cbn [commit].
+  - subst; reflexivity.
+  - subst; reflexivity.
+  - destruct Hg as [-> _]; reflexivity.
+  - destruct Hg as (-> & _ & -> & ->); reflexivity.
+  - destruct Hg as (-> & Hs & HF). f_equal.
+    induction items as [|[k [f c]] r IHr]; [reflexivity|].
+    inversion HF as [|? ? [Hf [Hv Hgc]] HF']; subst. cbn in Hf, Hv, Hgc. subst f.
+    cbn [filter slot_live fst snd clean_flags f_live map].
+    rewrite IH by exact Hgc. unfold clear_flags; cbn. f_equal.
+    apply IHr; [apply (ksorted_cons_tail _ _ _ Hs)|exact HF'].
+  - destruct Hg as (-> & _ & HF). f_equal.
+    induction kids as [|c r IHr]; [reflexivity|]. inversion HF; subst. cbn [map]. f_equal; auto.
+  - destruct Hg as (-> & HG). f_equal. revert kids HG.
+    induction fs as [|f r IHr]; intros kids HG; destruct kids as [|c kids']; cbn in HG; try contradiction; [reflexivity|].
+    inversion IH; subst. cbn [zipw]. destruct HG as [Hc Hr]. f_equal; [auto|apply IHr; assumption].
+Qed.
+
+(* ------------------------------------------------------------------ unfolding equations *)
+Lemma apply_eq sh out d : apply sh out d = if has_effect sh out d then
+    match sh, d with
+    | TS, DVal z => leaf_set z out
+    | SIGNAL, DVal _ => leaf_set 1 out
+    | TSW p _, DVal z => win_push p z out
+    | TSS, DSet ad rm =>
+        set_touch (fold_left (fun s k => set_add k s) ad (fold_left (fun s k => set_remove k s) rm out))
+    | TSD e, DDict rm md =>
+        dict_touch (fold_left (fun s kd => dict_child e (fst kd) (fun c => apply e c (snd kd)) s) md
+                              (fold_left (fun s k => dict_erase k s) rm out))
+    | TSL _ e, DList items =>
+        fold_left (fun s kd => idx_child (Z.to_nat (fst kd)) (fun c => apply e c (snd kd)) s) items out
+    | TSB fs, DBundle ds =>
+        match out with
+        | NIdx _ _ kids => idx_set_kids out (zipw3 apply fs kids ds)
+        | _ => out
+        end
+    | _, _ => out
+    end else out.
+Proof. destruct sh; reflexivity. Qed.
+
+Lemma apply_no_effect sh out d : has_effect sh out d = false -> apply sh out d = out.
+Proof. intros H. rewrite apply_eq, H. reflexivity. Qed.
+
+Definition tick_tsb := (fix go (fs : list shape) (kids0 kids : list node) : Prop :=
+         match fs, kids0, kids with
+         | f :: fs', c0 :: k0', c :: k' =>
+             ((nmod c = true /\ tick f c0 c) \/ (c = c0 /\ has_effect f c0 (field_default f) = false)) /\ go fs' k0' k'
+         | [], [], [] => True
+         | _, _, _ => False
+         end).
+
+Definition cap_field (f : shape) (c : node) : delta := if nmod c && nvalid c then capture f c else field_default f.
+
+Definition Recreates (f : shape) : Prop := forall pre live, good f pre -> tick f pre live -> recreates f pre live.
+
+Lemma recreates_has_effect f c0 c : good f c0 -> recreates f c0 c -> has_effect f c0 (capture f c) = true.
+Proof.
+  intros Hg (Hm & _). destruct (has_effect f c0 (capture f c)) eqn:E; [reflexivity|].
+  rewrite apply_no_effect in Hm by exact E. rewrite (good_nmod _ _ Hg) in Hm. discriminate.
+Qed.
+
+Lemma tsb_pointwise fs : Forall Recreates fs -> forall kids0 kids,
+  good_tsb fs kids0 -> tick_tsb fs kids0 kids ->
+  let ds := zipw cap_field fs kids in
+  let outk := zipw3 apply fs kids0 ds in
+  zipw commit fs outk = zipw commit fs kids /\
+  zipw cap_field fs outk = ds /\
+  existsb (fun b => b) (zipw3 has_effect fs kids0 ds) = existsb nmod kids /\
+  existsb (fun b => b) (zipw newly kids0 outk) = existsb nmod kids /\
+  good_tsb fs (zipw commit fs kids).
+Proof.
+  intros IHs. induction IHs as [|f r Hf Hr IH]; intros kids0 kids Hg Ht;
+    destruct kids0 as [|c0 k0]; destruct kids as [|c k]; cbn in Hg, Ht; try contradiction.
+  - cbn. repeat split; reflexivity.
+  - destruct Hg as [Hgc Hgr]. destruct Ht as [Hc Htr].
+    specialize (IH k0 k Hgr Htr). cbn zeta in IH. destruct IH as (I1 & I2 & I3 & I4 & I5).
+    cbn [zipw zipw3 existsb]. cbn zeta.
+    pose proof (good_nmod _ _ Hgc) as Hm0.
+    destruct Hc as [[Hm Htk]|[-> Hne]].
+    + pose proof (Hf c0 c Hgc Htk) as HR. pose proof (recreates_has_effect _ _ _ Hgc HR) as He.
+      destruct HR as (Rm & Rv & _ & Rlv & Rc & Rcap & Rg).
+      assert (Hcf : cap_field f c = capture f c) by (unfold cap_field; rewrite Hm, Rlv; reflexivity).
+      rewrite !Hcf.
+      assert (Hcf2 : cap_field f (apply f c0 (capture f c)) = capture f c)
+        by (unfold cap_field; rewrite Rm, Rv; exact Rcap).
+      rewrite Hcf2, He, Rc, I1, I2. unfold newly at 1. rewrite Hm0, Rm, Hm. cbn [negb andb orb].
+      repeat split; try reflexivity; assumption.
+    + assert (Hcf : cap_field f c0 = field_default f) by (unfold cap_field; rewrite Hm0; reflexivity).
+      rewrite !Hcf. rewrite (apply_no_effect _ _ _ Hne), Hne, Hcf.
+      rewrite I1, I2, I3. unfold newly at 1. rewrite Hm0. cbn [negb andb orb].
+      rewrite I4. repeat split; try reflexivity; [rewrite (commit_good _ _ Hgc); exact Hgc|exact I5].
+Qed.
+
+Lemma Exists_existsb {A} (p : A -> bool) l : Exists (fun x => p x = true) l -> existsb p l = true.
+Proof. intros H. apply existsb_exists. apply Exists_exists in H. exact H. Qed.
+
+Lemma recreates_tsb fs : Forall Recreates fs -> Recreates (TSB fs).
+Proof.
+  intros IHs pre live Hg Ht.
+  destruct pre as [| | | |m0 v0 kids0]; try contradiction. destruct live as [| | | |m v kids]; try contradiction.
+  destruct Hg as [-> Hg]. destruct Ht as (-> & -> & Ht & Hex).
+  destruct (tsb_pointwise fs IHs kids0 kids Hg Ht) as (P1 & P2 & P3 & P4 & P5).
+  apply Exists_existsb in Hex.
+  unfold recreates. change (capture (TSB fs) (NIdx true true kids)) with (DBundle (zipw cap_field fs kids)).
+  rewrite apply_eq. cbn [has_effect]. rewrite P3, Hex.
+  unfold idx_set_kids. rewrite P4, Hex.
+  cbn [nmod nvalid]. change (commit (TSB fs) (NIdx true true ?k)) with (NIdx false true (zipw commit fs k)).
+  change (capture (TSB fs) (NIdx true true ?k)) with (DBundle (zipw cap_field fs k)).
+  rewrite P1, P2. repeat split; try reflexivity. exact P5.
+Qed.
+
+(* ------------------------------------------------------------------ fixed lists *)
+Lemma set_nth_app {A} (pfx : list A) x y r : set_nth (length pfx) x (pfx ++ y :: r) = pfx ++ x :: r.
+Proof. unfold set_nth. induction pfx as [|a p IH]; cbn; [reflexivity|]. f_equal. exact IH. Qed.
+
+Lemma nth_error_app_len {A} (pfx : list A) y r : nth_error (pfx ++ y :: r) (length pfx) = Some y.
+Proof. induction pfx as [|a p IH]; cbn; [reflexivity|exact IH]. Qed.
+
+Definition tsl_items (e : shape) (o : Z) (kids : list node) : list (Z * delta) :=
+  map (fun ic => (fst ic, capture e (snd ic))) (filter (fun ic => nmod (snd ic) && nvalid (snd ic)) (index_from o kids)).
+
+Definition tsl_step (e : shape) := fun s (kd : Z * delta) => idx_child (Z.to_nat (fst kd)) (fun c => apply e c (snd kd)) s.
+
+Definition tsl_out (e : shape) : list node -> list node -> list node :=
+  zipw (fun c0 c => if nmod c then apply e c0 (capture e c) else c0).
+
+Lemma tsl_fold e : Recreates e -> forall kids0 kids,
+  Forall2 (fun c0 c => (nmod c = true /\ tick e c0 c) \/ c = c0) kids0 kids -> Forall (good e) kids0 ->
+  forall pfx m v,
+  fold_left (tsl_step e) (tsl_items e (Z.of_nat (length pfx)) kids) (NIdx m v (pfx ++ kids0)) =
+    NIdx (m || existsb nmod kids) (v || existsb nmod kids) (pfx ++ tsl_out e kids0 kids) /\
+  map (commit e) (tsl_out e kids0 kids) = map (commit e) kids /\
+  tsl_items e (Z.of_nat (length pfx)) (tsl_out e kids0 kids) = tsl_items e (Z.of_nat (length pfx)) kids /\
+  Forall (good e) (map (commit e) kids).
+Proof.
+  intros He kids0 kids HF. induction HF as [|c0 c k0 k Hc HF IH]; intros Hg pfx m v.
+  - cbn. rewrite !orb_false_r. repeat split; constructor.
+  - inversion Hg as [|? ? Hgc Hgr]; subst.
+    pose proof (good_nmod _ _ Hgc) as Hm0.
+    unfold tsl_items, tsl_out. cbn [index_from filter zipw snd fst map].
+    assert (Hoff : Z.of_nat (length pfx) + 1 = Z.of_nat (length (pfx ++ [c0]))).
+    { rewrite app_length. cbn [length]. lia. }
+    destruct Hc as [[Hm Htk]|Heq].
+    + pose proof (He c0 c Hgc Htk) as (Rm & Rv & _ & Rlv & Rc & Rcap & Rg).
+      rewrite Hm, Rlv, Rm, Rv. cbn [andb map fold_left fst snd existsb orb].
+      unfold tsl_step at 2. cbn [fst snd]. rewrite Nat2Z.id. unfold idx_child.
+      rewrite nth_error_app_len. rewrite Hm0, Rm. cbn [negb andb].
+      rewrite set_nth_app.
+      assert (Hoff' : Z.of_nat (length pfx) + 1 = Z.of_nat (length (pfx ++ [apply e c0 (capture e c)]))).
+      { rewrite app_length. cbn [length]. lia. }
+      specialize (IH Hgr (pfx ++ [apply e c0 (capture e c)]) true true).
+      rewrite <- Hoff' in IH. rewrite <- !app_assoc in IH. cbn [app] in IH.
+      destruct IH as (I1 & I2 & I3 & I4).
+      fold (tsl_items e (Z.of_nat (length pfx) + 1) k). fold (tsl_out e k0 k).
+      fold (tsl_items e (Z.of_nat (length pfx) + 1) (tsl_out e k0 k)).
+      rewrite I1, I2, I3, Rc, Rcap, Hm. cbn [orb]. rewrite !orb_true_r. repeat split; try reflexivity.
+      constructor; assumption.
+    + subst c. rewrite ?Hm0. cbn [andb map fold_left existsb orb]. rewrite ?Hm0. cbn [andb orb].
+      specialize (IH Hgr (pfx ++ [c0]) m v).
+      rewrite <- Hoff in IH. rewrite <- !app_assoc in IH. cbn [app] in IH.
+      destruct IH as (I1 & I2 & I3 & I4).
+      fold (tsl_items e (Z.of_nat (length pfx) + 1) k). fold (tsl_out e k0 k).
+      fold (tsl_items e (Z.of_nat (length pfx) + 1) (tsl_out e k0 k)).
+      rewrite I1, I2, I3. repeat split; try reflexivity.
+      constructor; [rewrite (commit_good _ _ Hgc); exact Hgc|exact I4].
+Qed.
+
+Lemma tsl_items_nonempty e o kids : Forall (fun c => nmod c = true -> nvalid c = true) kids ->
+  Exists (fun c => nmod c = true) kids -> tsl_items e o kids <> [].
+Proof.
+  intros Hv Hex. revert o. induction Hex as [c k Hm|c k Hex IH]; intros o; inversion Hv as [|? ? Hvc Hvr]; subst;
+    unfold tsl_items; cbn [index_from filter snd].
+  - rewrite Hm, (Hvc Hm). cbn. discriminate.
+  - destruct (nmod c && nvalid c); cbn [map]; [discriminate|]. apply IH, Hvr.
+Qed.
+
+Lemma Forall2_len {A B} (R : A -> B -> Prop) l l' : Forall2 R l l' -> length l = length l'.
+Proof. induction 1; cbn; congruence. Qed.
+
+Lemma recreates_tsl n e : Recreates e -> Recreates (TSL n e).
+Proof.
+  intros He pre live Hg Ht.
+  destruct pre as [| | | |m0 v0 kids0]; try contradiction. destruct live as [| | | |m v kids]; try contradiction.
+  destruct Hg as (-> & Hlen & Hg). destruct Ht as (-> & -> & HF & Hex).
+  destruct (tsl_fold e He kids0 kids HF Hg [] false v0) as (F1 & F2 & F3 & F4).
+  cbn [length app Z.of_nat] in F1, F3.
+  assert (Hvalid : Forall (fun c => nmod c = true -> nvalid c = true) kids).
+  { clear - HF He Hg. induction HF as [|c0 c k0 k Hc HF IH]; constructor.
+    - inversion Hg; subst. destruct Hc as [[Hm Htk]|Heq]; [|subst c].
+      + intros _. apply (He c0 c); assumption.
+      + intros Hm. rewrite (good_nmod e c0) in Hm by assumption. discriminate.
+    - inversion Hg; subst. apply IH; assumption. }
+  pose proof (tsl_items_nonempty e 0 kids Hvalid Hex) as Hne.
+  apply Exists_existsb in Hex.
+  unfold recreates. change (capture (TSL n e) (NIdx true true kids)) with (DList (tsl_items e 0 kids)).
+  rewrite apply_eq. cbn [has_effect].
+  destruct (tsl_items e 0 kids) as [|it its] eqn:Eit; [congruence|]. cbn [is_nil negb].
+  rewrite <- Eit in *. fold (tsl_step e). rewrite F1, Hex, !orb_true_r.
+  cbn [nmod nvalid]. change (commit (TSL n e) (NIdx true true ?k)) with (NIdx false true (map (commit e) k)).
+  change (capture (TSL n e) (NIdx true true ?k)) with (DList (tsl_items e 0 k)).
+  rewrite F2, F3. repeat split; try reflexivity.
+  - rewrite map_length. apply Forall2_len in HF. lia.
+  - exact F4.
+Qed.
